@@ -23,7 +23,8 @@ def bracket(est_rate, denom, eta, level, n_impl, upper, seed, B=20000):
         return _BR_CACHE[key]
     rs = np.random.RandomState(seed % (2 ** 32))
     w = (1 - eta) * eta ** (denom - np.arange(1, denom + 1))
-    x = np.sort((rs.binomial(1, est_rate, size=(B, denom)) * w).sum(axis=1))
+    step = max(1, 2000000 // denom)          # in slabs: a long history must not be held as one B x denom table
+    x = np.sort(np.concatenate([(rs.binomial(1, est_rate, size=(min(step, B - k), denom)) * w).sum(axis=1) for k in range(0, B, step)]))
     q = (1 - level) if upper else level
     pos = q * (n_impl - 1)
     k1, k2 = int(np.floor(pos)) + 1, min(n_impl, int(np.ceil(pos)) + 1)
@@ -116,6 +117,17 @@ def params(rng, small=False):
     return {"eta": rng.choice([0.6, 0.9, 0.75, 0.1]), "wl": rng.choice([0.05, 0.1, 0.2, 0.02, 0.5]), "dl": rng.choice([0.001, 0.01, 0.05, 0.1, 0.25]),   # (warning_level < detect_level is legal too; a fast-forgetting statistic with a wide warning zone warns from the first sample)
             "burn": rng.choice([0, 2, 5]) if small else rng.choice([5, 10, 20]), "sub": rng.choice([1, 2, 3]),
             "num_mc": rng.choice([200, 400]), "rv": rng.choice([2, 4, 1, 0]), "tracked": sorted(rng.sample(RATES, k))}
+
+
+def long_memory(rng):
+    """a slowly forgetting statistic (time_decay_factor close to 1) on a long stationary stream: the rate's denominator grows past a thousand
+    and the simulated bounds still have to be those of a history of THAT length"""
+    p = {"eta": rng.choice([0.999, 0.998]), "wl": 0.05, "dl": 0.001, "burn": rng.choice([1150, 1250]), "sub": 100, "num_mc": 200, "rv": 4,
+         "tracked": [rng.choice(["tpr", "tnr"])]}
+    yt = 1 if p["tracked"] == ["tpr"] else 0
+    acc = rng.uniform(0.6, 0.9)
+    cells = [(yt, yt if rng.random() < acc else 1 - yt) for _ in range(1500)]
+    return p, cells
 
 
 def regime_cells(rng, n):
